@@ -106,7 +106,10 @@ func (x *Exec) stdlib(s *State, in *ssa.Call, f *ssa.Function, args []Val) Val {
 			return scalar(mk(SStr, "repl_apply", rec[0], rec[1], rec[2], args[1].T))
 		}
 		return x.freshVal(s, "str", types.Typ[types.String])
-	case "strings.Join", "strings.ReplaceAll", "fmt.Sprintf", "(*bytes.Buffer).String":
+	case "fmt.Sprintf":
+		x.formatsPackageStringer(s, in)
+		return x.freshVal(s, "str", types.Typ[types.String])
+	case "strings.Join", "strings.ReplaceAll", "(*bytes.Buffer).String":
 		return x.freshVal(s, "str", types.Typ[types.String])
 	case "strings.NewReplacer", "hash/fnv.New64a":
 		r := x.alloc(s, "obj")
@@ -128,6 +131,7 @@ func (x *Exec) stdlib(s *State, in *ssa.Call, f *ssa.Function, args []Val) Val {
 		}
 		return scalar(r)
 	case "errors.New", "fmt.Errorf":
+		x.formatsPackageStringer(s, in)
 		r := x.alloc(s, "err")
 		return scalar(mk(SIface, "iref", IntLit(9999), r))
 	case "(*bytes.Buffer).WriteString", "(*bytes.Buffer).WriteByte":
@@ -217,6 +221,12 @@ func (x *Exec) stdlib(s *State, in *ssa.Call, f *ssa.Function, args []Val) Val {
 				s.assume(Implies(Eq(as[0], BVLit(c, 32)), r))
 			}
 			s.assume(Implies(Eq(as[0], BVLit(0, 32)), Not(r)))
+		}
+		if name == "unicode.Is" && len(as) >= 1 && as[len(as)-1].Sort == SBV32 {
+			// fact about the two tables the package asks about (parse.go: `first` starts at U+003A,
+			// `second` at U+002D): '*' (U+002A) is in neither
+			x.assumed["unicode.Is(first|second, '*') is false: both name-character tables of parse.go start above U+002A"] = true
+			s.assume(Implies(Eq(as[len(as)-1], BVLit(0x2A, 32)), Not(r)))
 		}
 		if (name == "unicode.IsDigit" || name == "unicode.Is") && len(as) >= 1 && as[len(as)-1].Sort == SBV32 {
 			// fact of the library: NUL is in none of the tables the package asks about (digits, letters, name characters)
@@ -458,5 +468,58 @@ func (x *Exec) poolPut(s *State, in ssa.Instruction, args []Val) {
 		inp := x.heapSym(s, "ghost:inpool", SArray(SInt, SBool))
 		x.oblige(s, "call-requires", x.label(in)+"/put-once", Not(Select(inp, ref, SBool)), in.Pos(), []string{"C05", "C09"})
 		x.heapSet(s, "ghost:inpool", Store(inp, ref, TTrue))
+	}
+}
+
+// formatsPackageStringer: fmt formats an operand that has a String() or Error() method by calling it.
+// For a type of this package that is a call into package code which no contract covers (the String
+// methods of the parse-tree nodes recurse over a tree of unbounded depth): on the compile path that
+// is a termination/stack obligation nobody has discharged.
+func (x *Exec) formatsPackageStringer(s *State, in *ssa.Call) {
+	c := in.Common()
+	if len(c.Args) < 2 {
+		return
+	}
+	sl, ok := c.Args[len(c.Args)-1].(*ssa.Slice)
+	if !ok {
+		return
+	}
+	al, ok := sl.X.(*ssa.Alloc)
+	if !ok {
+		return
+	}
+	for _, ref := range *al.Referrers() {
+		ia, ok := ref.(*ssa.IndexAddr)
+		if !ok {
+			continue
+		}
+		for _, r2 := range *ia.Referrers() {
+			st, ok := r2.(*ssa.Store)
+			if !ok || st.Addr != ia {
+				continue
+			}
+			mi, ok := st.Val.(*ssa.MakeInterface)
+			if !ok {
+				continue
+			}
+			t := mi.X.Type()
+			for _, mn := range []string{"String", "Error"} {
+				sel := x.p.SSA.Prog.MethodSets.MethodSet(t).Lookup(x.p.SSA.Pkg, mn)
+				if sel == nil {
+					sel = x.p.SSA.Prog.MethodSets.MethodSet(t).Lookup(nil, mn)
+				}
+				if sel == nil {
+					continue
+				}
+				fn := x.p.SSA.Prog.MethodValue(sel)
+				if fn == nil || fn.Pkg != x.p.SSA {
+					continue
+				}
+				if fc := x.contractOf(fn); fc != nil && len(fc.clauses("rdecreases")) > 0 {
+					continue // the method has a recursion measure of its own
+				}
+				x.oblige(s, "termination", x.label(in)+"/formats:"+typeStr(t)+"."+mn, TFalse, in.Pos(), []string{"C06", "C15"})
+			}
+		}
 	}
 }
